@@ -118,6 +118,18 @@ CLAIMED = {
              "not modelled. The transparency clause is compared up to the first tie of two candidate times.",
         technique="Lean 4 proof (observational-equivalence lemma) + differential replay of dumped/resumed real runs",
         ref="§5 C19"),
+    "C05": dict(
+        text="Lean 4 theorems over any linearly ordered field, for tables of any size/insertion order with zeros allowed: pointwise "
+             "selection rule of the three schemes, selected unit strictly negative under exactly the draw hypotheses the proof forces, "
+             "the set of selecting draws is an interval whose (Lebesgue) measure is prob, and GLOBAL BALANCE: sum over positive active "
+             "units of q_a * P(select k | a) = |q_k| for inside-first, outside-first and ratio; determinism. Kernel-evaluated binary64 "
+             "counterexample theorems for the six boundary findings. Correspondence: bit-exact against the three real classes under "
+             "controlled draws (incl. CPython's compensated sum), sessions with invalid histories, glue (_fill_lifting, fixed-separations "
+             "handler); oracle: exact selection intervals of the implementation by bisection, summed with Fractions, vs |q_k|.",
+        note="Rounding is not covered by the theorems (exact arithmetic); float behaviour tied by bit-exact correspondence and the flow "
+             "oracle's derived tolerance. Six known findings (a zero-derivative unit can be selected at a measure-zero/ulp-level end point).",
+        technique="Lean 4 proof over a hand-written model + bit-exact differential correspondence + exact flow-integral oracle",
+        ref="§5 C05"),
 }
 
 PENDING_REASON = "check not built yet in this session (work in progress; see DESIGN.md §9 for the order)"
